@@ -364,8 +364,10 @@ func (w *srelayWorld) byzantineRelay() {
 	ih.Parse(c.inner)
 	target := B.f.hostMap.QueryIndex(ih.RemoteIndex)
 	before := ""
+	var relaysBefore []netip.Addr
 	if target != nil {
 		before = tunnelDigest(target)
+		relaysBefore = target.relayState.CopyRelayIps()
 	}
 	nOut := len(R.conn.out)
 	R.f.SendVia(hiB, rel, inner, make([]byte, 12), make([]byte, mtu), false, 0)
@@ -394,6 +396,16 @@ func (w *srelayWorld) byzantineRelay() {
 			if after := tunnelDigest(target); after != before {
 				w.fail("C15", "modified-packet-changed-state", "node %d: a packet modified by the relay (%s) changed the end-to-end tunnel state\nbefore: %s\nafter:  %s", B.idx, kind, before, after)
 				return
+			}
+		}
+		if target != nil {
+			// relay candidates may be pruned by the node's own send path (not judged), but a packet nobody
+			// authenticated never ADDS one
+			for _, r := range target.relayState.CopyRelayIps() {
+				if !slices.Contains(relaysBefore, r) {
+					w.fail("C15", "modified-packet-changed-state", "node %d: a packet modified by the relay (%s) added %v to the relays of the end-to-end tunnel it names (before: %v)", B.idx, kind, r, relaysBefore)
+					return
+				}
 			}
 		}
 		if len(reply) > 0 && !onlyRecvErrors(reply) {
